@@ -17,7 +17,7 @@ func Y(site string) {
 		return
 	}
 	tk := lookupTask()
-	if tk == nil || tk.lockDepth > 0 {
+	if tk == nil || tk.lockDepth > 0 || tk.dying {
 		return
 	}
 	raceDisable()
@@ -36,7 +36,7 @@ func W(site string) {
 		return
 	}
 	tk := lookupTask()
-	if tk == nil || tk.lockDepth > 0 {
+	if tk == nil || tk.lockDepth > 0 || tk.dying {
 		return
 	}
 	raceDisable()
@@ -51,10 +51,14 @@ func Go(site string, fn func()) {
 		go fn()
 		return
 	}
-	if lookupTask() == nil {
+	tk := lookupTask()
+	if tk == nil {
 		// spawned from a goroutine that is not under the scheduler: leave it alone
 		go fn()
 		return
+	}
+	if tk.dying {
+		return // a task being torn down at the end of a run starts nothing new
 	}
 	s.spawn(site, false, fn)
 }
@@ -123,6 +127,13 @@ func Lock(site string, m tryLocker) {
 		m.Lock()
 		return
 	}
+	if tk.dying {
+		if !m.TryLock() {
+			<-s.never
+		}
+		tk.lockDepth++
+		return
+	}
 	if tk.lockDepth == 0 {
 		raceDisable()
 		s.park(tk, pkYield, site)
@@ -171,6 +182,13 @@ func RLock(site string, m tryRLocker) {
 	}
 	if tk == nil {
 		m.RLock()
+		return
+	}
+	if tk.dying {
+		if !m.TryRLock() {
+			<-s.never
+		}
+		tk.lockDepth++
 		return
 	}
 	if tk.lockDepth == 0 {
